@@ -20,9 +20,9 @@ def tol_for(y, rel=1e-7):
     return rel * (1.0 + abs(y))
 
 
-def interval_goal(name, term, y, tol, unfolds):
+def interval_goal(name, term, y, tol, unfolds, tactic='corr'):
     return (f'Lemma {name} : Rabs ({term} - {frac(y)}) <= {frac(tol)}.\n'
-            f'Proof. unfold {", ".join(unfolds)}. corr. Qed.\n')
+            f'Proof. unfold {", ".join(unfolds)}. {tactic}. Qed.\n')
 
 
 def run_interval_cases(ctx, prefix, imports, goals, per_file=20, timeout=900):
@@ -34,7 +34,7 @@ def run_interval_cases(ctx, prefix, imports, goals, per_file=20, timeout=900):
         chunk = goals[k:k + per_file]
         txt = CASE_HDR.format(imports=imports)
         for j, g in enumerate(chunk):
-            txt += interval_goal(f'case_{k + j}', g['term'], g['y'], g['tol'], g['unfolds'])
+            txt += interval_goal(f'case_{k + j}', g['term'], g['y'], g['tol'], g['unfolds'], g.get('tactic', 'corr'))
         rel = f'{prefix}_{k // per_file}.v'
         ctx.write(rel, txt)
         files.append((rel, chunk, k))
@@ -53,7 +53,7 @@ def run_interval_cases(ctx, prefix, imports, goals, per_file=20, timeout=900):
         for j, g in enumerate(chunk):
             r1 = f'{prefix}_single_{k + j}.v'
             ctx.write(r1, CASE_HDR.format(imports=imports) +
-                      interval_goal(f'case_{k + j}', g['term'], g['y'], g['tol'], g['unfolds']))
+                      interval_goal(f'case_{k + j}', g['term'], g['y'], g['tol'], g['unfolds'], g.get('tactic', 'corr')))
             single.append((r1, g, k + j))
     if single:
         res = ctx.compile_parallel([s[0] for s in single], timeout=timeout)
